@@ -52,3 +52,14 @@ func VerifReadEvents(c *Conn) int32 { return c.readEvents }
 
 // VerifMuxName labels the connection mutex for scheduler traces (only with the vsync shim).
 func VerifFd(c *Conn) int { return c.fd }
+
+// VerifRegistered returns how many connections are in the engine's table.
+func VerifRegistered(g *Engine) int {
+	n := 0
+	for _, c := range g.connsUnix {
+		if c != nil {
+			n++
+		}
+	}
+	return n
+}
